@@ -692,10 +692,18 @@ func (vm *VirtualMachine) eval(ctx context.Context) error {
 			jumpAmount := vm.fetch()
 			nameCount := vm.fetch()
 			iter := vm.pop().(object.Iterator)
-			if _, ok := iter.Next(ctx); !ok {
+			var obj object.IteratorEntry
+			var ok bool
+			if ch, isChan := iter.(*object.Chan); isChan {
+				// A channel may be ranged over by several goroutines at once: take the
+				// value and its entry in one step instead of Next followed by Entry.
+				obj, ok = ch.NextEntry(ctx)
+			} else if _, ok = iter.Next(ctx); ok {
+				obj, _ = iter.Entry()
+			}
+			if !ok {
 				vm.ip = base + int(jumpAmount)
 			} else {
-				obj, _ := iter.Entry()
 				vm.push(iter)
 				if nameCount == 1 {
 					vm.push(obj.Key())
